@@ -54,10 +54,10 @@ Definition fb (d : option zc) : fault Z := mkFault KBase d.
 
 (** direct call of save_content_to_path: initial A / A.bak (possibly absent),
     new content (None = not serialisable). *)
-Definition show_save (keep : bool) (a0 b0 : option zc) (new : option zc)
+Definition show_save (pos : dumps_pos) (keep : bool) (a0 b0 : option zc) (new : option zc)
            (sch : list (step * fault Z)) : sx :=
   let f0 := fs_of (opt_file pA a0 ++ opt_file (bak pA) b0 ++ [(pB, [5%Z])]) in
-  let '(f, o) := save keep new pA (sched_of sch) f0 in
+  let '(f, o) := save pos keep new pA (sched_of sch) f0 in
   SL [sx_file (f pA); sx_file (f (bak pA)); sx_file (f pB); sx_outcome o].
 
 (* toy document universe *)
@@ -77,14 +77,14 @@ Definition t_mk (res : Z) (a b : Z) : Z * Z := (a, res).
 Definition t_apply (dl : Z * Z) (x : Z) : Z := if (x =? fst dl)%Z then snd dl else x.
 
 (** deep diff A B --create-patch > P ; deep patch A P [--backup] [--debug] *)
-Definition show_pipeline (keep debug : bool) (a0 bk0 : option zc) (b0 : zc) (res : Z)
+Definition show_pipeline (pos : dumps_pos) (keep debug : bool) (a0 bk0 : option zc) (b0 : zc) (res : Z)
            (sch : list (step * fault Z)) : sx :=
   let f0 := fs_of (opt_file pA a0 ++ opt_file (bak pA) bk0 ++ [(pB, b0)]) in
   match diff_cmd t_parse t_pickle (t_mk res) pA pB f0 with
   | None => SL [SA "diff-failed"]
   | Some pd =>
       let f1 := upd pP (Some pd) f0 in
-      let '(f, o) := patch_cmd t_parse t_dump t_unpickle t_apply keep pA pP (sched_of sch) f1 in
+      let '(f, o) := patch_cmd t_parse t_dump t_unpickle t_apply pos keep pA pP (sched_of sch) f1 in
       SL [sx_file (f pA); sx_file (f (bak pA)); sx_file (f pB);
           sx_bool (match f pP with Some c => if list_eq_dec Z.eq_dec c pd then true else false | None => false end);
           sx_cli (cli_report debug o)]
